@@ -418,7 +418,7 @@ func generate(o *hx.Opts, tot map[int]totals) []caseIn {
 	// S3: random histories
 	r := o.Rand(16)
 	t0 := tot[0]
-	for i := 0; i < o.N(250, 20000); i++ {
+	for i := 0; i < o.N(250, 12000); i++ {
 		add(fmt.Sprintf("rand-%d", i), "random", false, randomHistory(r, t0))
 	}
 
